@@ -176,6 +176,9 @@ type site struct {
 	writer *ssa.Function // the prop writer / encode helper called
 	valArg ssa.Value
 	note   string
+	// condWrites: prop-writer calls whose result decides whether this site runs (short-circuit on the
+	// accumulated "something was written" flag)
+	condWrites []string
 }
 
 type keyElem struct {
@@ -275,6 +278,11 @@ func (t *tables) extractJSONWrites(f *ssa.Function) {
 			}
 			s.names = uniq(s.names)
 			s.guards = t.pr.dominatingGuards(b)
+			for _, g := range rawGuards(b) {
+				for _, wc := range t.writesInSlice(g.cond, in) {
+					s.condWrites = append(s.condWrites, wc)
+				}
+			}
 			refs := prov.list()
 			if len(refs) == 0 {
 				s.note = "value written does not derive from a struct field"
@@ -288,6 +296,84 @@ func (t *tables) extractJSONWrites(f *ssa.Function) {
 			}
 		}
 	}
+}
+
+// writesInSlice: prop-writer calls (other than self) in the backward slice of a branch condition.
+func (t *tables) writesInSlice(cond ssa.Value, self ssa.Instruction) []string {
+	var out []string
+	seen := map[ssa.Value]bool{}
+	var visit func(v ssa.Value, d int)
+	visit = func(v ssa.Value, d int) {
+		if v == nil || seen[v] || d > 30 {
+			return
+		}
+		seen[v] = true
+		switch x := v.(type) {
+		case *ssa.Call:
+			if g := x.Common().StaticCallee(); g != nil && t.pw[g] != nil && ssa.Instruction(x) != self {
+				name := "?"
+				if gi := t.pw[g]; gi.nameParam < len(x.Common().Args) {
+					if s, ok := constString(x.Common().Args[gi.nameParam]); ok {
+						name = s
+					}
+				}
+				out = append(out, name)
+			}
+		case *ssa.Phi:
+			for _, e := range x.Edges {
+				visit(e, d+1)
+			}
+			// control dependence: the branches that select which edge is taken (x || y lowers to a branch on x)
+			blk := x.Block()
+			for _, p := range blk.Preds {
+				if ifi, ok := p.Instrs[len(p.Instrs)-1].(*ssa.If); ok {
+					visit(ifi.Cond, d+1)
+				}
+			}
+			if id := blk.Idom(); id != nil {
+				if ifi, ok := id.Instrs[len(id.Instrs)-1].(*ssa.If); ok {
+					visit(ifi.Cond, d+1)
+				}
+			}
+		case *ssa.BinOp:
+			visit(x.X, d+1)
+			visit(x.Y, d+1)
+		case *ssa.UnOp:
+			if x.Op == token.MUL {
+				switch a := x.X.(type) {
+				case *ssa.Alloc:
+					for _, st := range storesTo(a) {
+						visit(st.Val, d+1)
+					}
+					return
+				case *ssa.FreeVar:
+					if b, ok := t.pr.fvMap[a]; ok {
+						if al, ok := b.(*ssa.Alloc); ok {
+							for _, st := range storesTo(al) {
+								visit(st.Val, d+1)
+							}
+							// stores made inside closures through the captured variable
+							for fv, bind := range t.pr.fvMap {
+								if bind == b {
+									if refs := fv.Referrers(); refs != nil {
+										for _, r := range *refs {
+											if st, ok := r.(*ssa.Store); ok && st.Addr == ssa.Value(fv) {
+												visit(st.Val, d+1)
+											}
+										}
+									}
+								}
+							}
+						}
+					}
+					return
+				}
+			}
+			visit(x.X, d+1)
+		}
+	}
+	visit(cond, 0)
+	return uniq(out)
 }
 
 func isGobMap(tp types.Type) bool {
